@@ -153,6 +153,12 @@ def judge(events, outs):
                 k = "fitcls|" + "|".join([fam, f["profile"], out["rid"], out["data_digest"], str(f["ignore"])])
                 key_check("C03", k, cls, ev, lambda first, fl=fl, refit=refit: f"C03/{fl}/fit/outcome-differs{refit}")
 
+        elif kind in ("PREDICT", "PREDICT_GRID") and out.get("limbo_probe"):
+            lp = out["limbo_probe"]
+            if cls == "returned":
+                V.append(_v("C04", f"C04/{flabel(lp['fam'], lp['profile'])}/predict/after-interrupted-refit/dq/no-raise", ev,
+                            {"was_disqualified_for": lp["prev_dq"]}))
+
         elif kind in ("PREDICT", "PREDICT_GRID"):
             f = out["facts"]
             fam = f["fam"]
